@@ -74,7 +74,8 @@ def unit_verdict(ur, mutate=False):
     und = list(res.undecided)
     if ur.unlisted:
         und.append('assumptions not on the unit allow-list: ' + '; '.join(ur.unlisted))
-    if not mutate and not res.compile_errors:
+    aborted = res.verified == 0 and res.errors == 0 and bool(res.undecided)   # verus stopped before any query (unsupported construct ...)
+    if not mutate and not res.compile_errors and not aborted:
         # vacuity guard: each vac fn must be rejected
         vac_hit = {o.item for o in res.vac_failed}
         for key in asm.vac_ranges:
@@ -232,7 +233,7 @@ def check_property(prop, tier, seed, verbose=False):
         relevant = [o for o in failed if _matches_filter(o, uc.get('labels'))]
         others = [o for o in failed if o not in relevant]
         cmds.append(res.cmd + '   (cwd build/%s)' % uc['unit'])
-        cover['obligations'] += res.verified + len(failed)
+        cover['obligations'] += res.verified + len(relevant)     # failures outside this property's label filter belong to the other property that lists the unit
         cover['discharged'] += res.verified
         cover['solver_ms'] += res.smt_ms
         cover['units'].append({'unit': uc['unit'], 'verified_queries': res.verified, 'failed': [o.name for o in failed],
@@ -309,6 +310,33 @@ def check_property(prop, tier, seed, verbose=False):
         lines.append('VIOLATION property=%s replay=%s%s' % (prop, path, '' if w else ' no-failing-input-found'))
         lines.append('  obligation: %s' % (o.name if ur is not None else o['name']))
         rc = 1
+    if tier == 'thorough' and rc == 0 and not undecided:
+        # thorough tier: the bounded witness searches run even though every obligation was discharged. They are BOUNDED
+        # (listed under coverage.bounded, never counted as discharged) and can only add a violation with a concrete input.
+        for rp in pcfg.get('replays', []):
+            if not rp.get('on_undecided'): continue
+            try:
+                from . import engines
+                w = {'driver': rp['driver'], 'bin': rp.get('bin', 'replay'), 'args': rp.get('args', {}), 'history': rp.get('history', '')}
+                rr = engines.replay_witness(w)
+                last = (rr.get('output', '').strip().split('\n') or [''])[-1][:300]
+                cover['bounded'].append({'search': rp['driver'], 'args': rp.get('args', {}), 'result': last, 'hit': bool(rr.get('reproduced'))})
+                if rr.get('reproduced'):
+                    w['replayed_on_real_code'] = rr
+                    m_ = re.search(r'FOUND hex=([0-9a-f]*)', rr.get('output', ''))
+                    if m_: w['args'] = {'mode': 'hex', 'text': m_.group(1)}
+                    os.makedirs(REPLAYS, exist_ok=True)
+                    path = os.path.join(REPLAYS, '%s-bounded-search.json' % prop)
+                    json.dump({'property': prop, 'obligation': 'bounded-search:%s (all contract obligations discharged: the failing input lies outside the functions under contract)' % rp['driver'],
+                               'verifier': 'bounded search on the real code', 'verifier_output': rr.get('output', ''), 'failing_input': w,
+                               'how_to_replay': './check %s --replay %s' % (prop, path)}, open(path, 'w'), indent=1, ensure_ascii=False)
+                    lines.append('VIOLATION property=%s replay=%s' % (prop, path))
+                    lines.append('  obligation: bounded-search:%s found a failing input outside the functions under contract' % rp['driver'])
+                    lines.append('  ' + last)
+                    violations.append((rp['driver'], None, None))
+                    rc = 1
+            except Exception as e:
+                lines.append('  (bounded search failed: %s)' % str(e)[:200])
     if undecided and rc == 0:
         # the proof machinery cannot decide (unsupported construct, lost anchor, rlimit ...). A refutation that
         # replays on the real code is sound whatever the proof status: try the property's bounded witness search.
